@@ -818,7 +818,28 @@ OPTION_VARIANTS = [
     dict(fmt='csv', write_all=True, per_constraint=True), dict(fmt='csv', boolean_ints=True, per_constraint=True),
     dict(fmt='csv', pass_only=True), dict(fmt='csv', pass_only=True, stale=True),
     dict(fmt='parquet', pass_only=True, stale=True),
+    # frames whose index is not 0..n-1 (sorted, permuted, filtered, labelled): which records are output
+    dict(index_kind='reversed'), dict(index_kind='filtered', per_constraint=True),
+    dict(fmt='csv', index_kind='reversed'), dict(fmt='csv', index_kind='permuted', index=True, output_fields=[]),
+    dict(fmt='csv', index_kind='string'), dict(fmt='csv', index_kind='filtered', output_fields=['c'], index=True),
+    dict(fmt='parquet', index_kind='filtered'), dict(fmt='parquet', index_kind='string', index=True),
+    dict(fmt='parquet', index_kind='permuted', per_constraint=True),
+    dict(fmt='csv', index_kind='permuted', write_all=True),
 ]
+
+
+def reindexed(df, kind):
+    n = len(df)
+    d = df.copy()
+    if kind == 'reversed':
+        d.index = list(range(n - 1, -1, -1))
+    elif kind == 'permuted':
+        d.index = [(i + 1) % n for i in range(n)] if n != 1 else [5]
+    elif kind == 'filtered':
+        d.index = [3 * i + 10 for i in range(n)]
+    elif kind == 'string':
+        d.index = ['r%d' % i for i in range(n)]
+    return d
 
 
 def _cells_equal(a, b):
@@ -840,7 +861,19 @@ def check_detect_options(b, df, cons, base, w, tmpdir, opt):
     fmt = opt.pop('fmt', None)
     stale = opt.pop('stale', False)
     pass_only = opt.pop('pass_only', False)
-    w2 = dict(w, options=json.dumps(dict(opt, fmt=fmt, stale=stale, pass_only=pass_only)))
+    index_kind = opt.pop('index_kind', None)
+    w2 = dict(w, options=json.dumps(dict(opt, fmt=fmt, stale=stale, pass_only=pass_only, index_kind=index_kind)))
+    if index_kind:
+        df = reindexed(df, index_kind)
+    # which records fail (by position), from the write_all / per_constraint run on the same values
+    fail_pos = None
+    if not pass_only:
+        try:
+            bd = base.detected()
+            if bd is not None and 'n_failures' in bd and len(bd) == len(df):
+                fail_pos = [i for i, x in enumerate(bd['n_failures'].tolist()) if x > 0]
+        except Exception:
+            fail_pos = None
     if pass_only:
         # constraints nothing violates: the field's own type only
         cons = {'fields': {'c': {'type': cons['fields']['c'].get('type')
@@ -857,7 +890,7 @@ def check_detect_options(b, df, cons, base, w, tmpdir, opt):
                 fh.write('stale,content\n1,2\n')
     d_in = df.copy()
     before = d_in.copy()
-    kw = dict(opt)
+    kw = dict(opt, epsilon=FUZZ_EPS)       # same fuzz as the base run the failing positions come from
     if outpath:
         kw['outpath'] = outpath
     b.case(('detect-options', w2['options'], w.get('family'), tuple(w.get('values', ())), w.get('constraints')))
@@ -877,6 +910,16 @@ def check_detect_options(b, df, cons, base, w, tmpdir, opt):
                 want = len(df) if opt.get('write_all') else r.detection.n_failing_records
                 b.check('C06.output-file-holds-failing-records', len(out) == want, w2,
                         'file rows %d, expected %d' % (len(out), want))
+                if fail_pos is not None and 'Index' in out and 'Index' not in df:
+                    pos = list(range(len(df))) if opt.get('write_all') else fail_pos
+                    labels = [str(df.index[i]) for i in pos]
+                    got = [str(x) for x in out['Index'].tolist()]
+                    b.check('C06.output-file-holds-failing-records', got == labels, w2,
+                            'file holds records %r, the failing records are %r' % (got, labels))
+                    if 'n_failures' in out and not opt.get('write_all'):
+                        b.check('C06.output-file-holds-failing-records',
+                                all(int(x) > 0 for x in out['n_failures'].tolist()), w2,
+                                'n_failures in file: %r' % out['n_failures'].tolist())
             except Exception as e:
                 b.check('C06.output-file-readable', False, w2, repr(e)[:200])
             os.unlink(outpath)
@@ -884,6 +927,13 @@ def check_detect_options(b, df, cons, base, w, tmpdir, opt):
         want = len(df) if opt.get('write_all') else r.detection.n_failing_records
         b.check('C06.detected-holds-failing-records', len(det) == want, w2,
                 'frame rows %d expected %d' % (len(det), want))
+        if fail_pos is not None:
+            pos = list(range(len(df))) if opt.get('write_all') else fail_pos
+            labels = [df.index[i] for i in pos]
+            # records are identified by their index label, or by their row number where the index was reset
+            b.check('C06.detected-holds-failing-records', list(det.index) in (labels, pos), w2,
+                    'frame holds records %r, the failing records are %r (row numbers %r)'
+                    % (list(det.index), labels, pos))
         b.check('C06.record-counts-partition',
                 r.detection.n_passing_records + r.detection.n_failing_records == len(df), w2)
     if not opt.get('in_place'):
